@@ -64,7 +64,7 @@ DEG = math.pi / 180.0
 
 def jobs(tier):
     if tier == "quick":
-        n, nd, ns = 64, 24, 6000
+        n, nd, ns = 48, 24, 5000
     else:
         n, nd, ns = 1000, 256, 160000
     return [
